@@ -149,7 +149,7 @@ func (Migrator) Migrate(
 		default:
 		}
 
-		firstBlock, shouldMigrate, err := getFirstBlockToMigrate(database)
+		firstBlock, shouldMigrate, err := getFirstBlockToMigrate(database, chainHeight)
 		if err != nil {
 			return shouldRerun, err
 		}
